@@ -614,6 +614,8 @@ var hostileKeys = []string{
 	strings.Repeat("L", 255), strings.Repeat("M", 256), "seg/" + strings.Repeat("N", 300) + "/end",
 	"fresh/" + strings.Repeat("P", 300), "fresh2/er/" + strings.Repeat("Q", 256), "seg3/" + strings.Repeat("R", 300) + "/x/y",
 	// storable keys that agree in their first couple of hundred bytes
+	// key bytes that read like a subresource when a copy names them as source
+	"victim?versionId=3", "dir/obj?versionId=null", "victim?x", "a/b?versionId=", "victim%3FversionId=3", "victim#frag", "victim&versionId=1",
 	"lp/" + strings.Repeat("p", 210) + "-one", "lp/" + strings.Repeat("p", 210) + "-two", strings.Repeat("q", 250) + "/x", strings.Repeat("q", 250) + "/y",
 }
 
@@ -662,6 +664,11 @@ func (g *G) genC10(p *Plan) {
 			op.Sub = "copy"
 			op.SrcB = c.Buckets[g.rng.Intn(len(c.Buckets))]
 			op.SrcKey = base[g.rng.Intn(len(base))]
+			if g.chance(0.4) {
+				// the other way round: the hostile key names the source
+				op.Sub, op.SrcB, op.SrcKey = "copyfrom", b, k
+				op.B, op.Key = c.Buckets[g.rng.Intn(len(c.Buckets))], g.pick("copied/out", "copied-flat")
+			}
 		case r < 90:
 			op.Sub = "delmulti"
 		case r < 94:
